@@ -42,7 +42,7 @@ func init() {
 			Runs: map[string]int{"quick": 200, "thorough": 6000},
 		}},
 		Rule:           "one run = generated directory (1-5 files x 0-5 statements, layout varied) + swarm-selected fault kinds (statement error persistent/one-shot, revision write lost, revision write persisted-but-error, revision read error; <=3 faults, positions biased to first/last statement and to the write right after a statement) + 1-8 ExecuteN/ExecuteTo calls + clean suffix; distinct = distinct trace hash (sha256 of the normalised event log) among runs in which at least one statement was executed or a fault fired",
-		RequiredProbes: []string{"resume-after-partial", "lost-write-right-after-statement", "statement-executed-twice-after-lost-write", "statement-executed-but-bookkeeping-write-failed", "statement-executed-twice-after-failed-bookkeeping"},
+		RequiredProbes: []string{"resume-after-partial", "directory-with-checkpoint", "resume-of-partial-checkpoint", "lost-write-right-after-statement", "statement-executed-twice-after-lost-write", "statement-executed-but-bookkeeping-write-failed", "statement-executed-twice-after-failed-bookkeeping"},
 		RequiredFaults: []string{"stmt-persistent", "stmt-once", "rev-write-lost", "rev-write-acklost", "rev-read", "write-lock-held-at/exec:before-init-write", "write-lock-held-at/exec:before-stmt", "write-lock-held-at/exec:after-stmt", "write-lock-held-at/exec:before-final-write"},
 		Real:           []string{"migrate.Executor (Pending, Execute, ExecuteN, ExecuteTo, exec)", "migrate.MemDir", "migrate.Validate/HashFile", "statement scanner (migrate.Stmts)"},
 		Stub:           []string{"database (SimDriver: records ExecContext, fails on plan)", "revision store (SimRevs: in-memory copies, write lost / ack lost / read error)", "part clisim-c09-busy stubs nothing: the real CLI (--tx-mode none) is parked at a hook point (VERIF_PAUSE_AT) while an independent connection takes SQLite's write lock, so that its next bookkeeping write or statement really fails with 'database is locked'"},
